@@ -33,6 +33,6 @@ theorem other_names_unprefixed (pg : Bool) (moduleNs : Ns) (rg : List String) (b
   refine ⟨m, hm', ?_⟩
   rw [hf]; simp [pfxOf, hm]
 
-example : pfxOf ⟨0, .builtin, some "print", 0, true, none, 0, true, []⟩ true = "_" := by decide
+example : pfxOf ⟨0, .builtin, some "print", 0, true, none, 0, true, [], []⟩ true = "_" := by decide
 
 end PMV.C04
